@@ -124,7 +124,8 @@ def host (e : Env) (u : Url) : R (Option Str) := do
     let lastDigit ← (match raw.getLast? with
       | some l => isDigitChar e.o l
       | none => pure false : R Bool)
-    if lastDigit || mem 58 raw then pure (some raw)
+    -- `raw[-1].isdigit() and "xn--" not in raw or ":" in raw`: IP addresses are never IDNA encoded
+    if (lastDigit && !hasSub [120, 110, 45, 45] raw) || mem 58 raw then pure (some raw)
     else do pure (some (← idnaDecode e.o raw))
 
 def hostSubcomponent (e : Env) (u : Url) : R (Option Str) := do
